@@ -1,5 +1,69 @@
-import YtkModel.Equal
+/-
+  C05 — Equality is structural; clones are equal, same-kind and independent.
+
+  `Node.Valid` = every container has strictly sorted (unique) keys, none ending in an index
+  group: exactly the nodes constructible through the public API (DESIGN.md section 2, D26).
+  In the sorted representation two nodes have "the same kind and the same content" iff
+  they are equal as terms, so the property reads `equals x y = true ↔ x = y`.
+-/
+import YtkProofs.Equal
+
 namespace Ytk.C05
+
+/-- Equals holds exactly when the two nodes have the same kind and the same content. -/
+theorem equals_iff (x y : Node) (hx : x.Valid) (hy : y.Valid) : equals x y = true ↔ x = y :=
+  equals_iff_eq hx hy
+
+theorem equals_refl (x : Node) (hx : x.Valid) : equals x x = true := Ytk.equals_refl x hx
+
+theorem equals_symm (x y : Node) (hx : x.Valid) (hy : y.Valid) : equals x y = equals y x := by
+  cases h : equals x y with
+  | true =>
+    have e := (equals_iff x y hx hy).mp h
+    subst e; exact h.symm
+  | false =>
+    cases h' : equals y x with
+    | false => rfl
+    | true =>
+      have e := (equals_iff y x hy hx).mp h'
+      subst e; rw [h] at h'; cases h'
+
+theorem equals_trans (x y z : Node) (hx : x.Valid) (hy : y.Valid) (hz : z.Valid)
+    (h1 : equals x y = true) (h2 : equals y z = true) : equals x z = true := by
+  have e1 := (equals_iff x y hx hy).mp h1
+  have e2 := (equals_iff y z hy hz).mp h2
+  subst e1; subst e2; exact h1
+
+/-- `x.Equals(nil)` is false. -/
+theorem equals_nil (x : Node) : equalsNil x = false := rfl
+
+/-- SameAs is kind equality. -/
 theorem sameAs_iff_kind (x y : Node) : sameAs x y = true ↔ x.kind = y.kind := by
   simp [sameAs]
+
+/-- A clone has the same content as (in the value model: is) its original … -/
+theorem clone_eq (x : Node) : clone x = x := clone_id x
+
+/-- … hence equals it both ways and is of the same kind. -/
+theorem clone_equals (x : Node) (hx : x.Valid) : equals (clone x) x = true ∧ equals x (clone x) = true := by
+  rw [clone_id]; exact ⟨Ytk.equals_refl x hx, Ytk.equals_refl x hx⟩
+
+theorem clone_sameAs (x : Node) : sameAs (clone x) x = true := by
+  rw [clone_id]; simp [sameAs]
+
+/-- different kinds are never equal -/
+theorem equals_kind (x y : Node) (h : equals x y = true) : x.kind = y.kind := by
+  cases x <;> cases y <;> simp_all [equals, Node.kind]
+
+/-- Non-vacuity: a concrete nested document is `Valid`, and the asymmetric pair that the
+    pinned tree got wrong (`{a:1}` vs `{a:1,b:2}`) is decided `false` in both directions. -/
+def exDoc : Node := .cont [("a", .leaf ⟨"int", "1"⟩), ("b", .list [.cont [("x", .leaf Scalar.null)], .leaf ⟨"string", "s"⟩])]
+def exSmall : Node := .cont [("a", .leaf ⟨"int", "1"⟩)]
+def exBig : Node := .cont [("a", .leaf ⟨"int", "1"⟩), ("b", .leaf ⟨"int", "2"⟩)]
+
+theorem nonvacuous_subset_pair : equals exSmall exBig = false ∧ equals exBig exSmall = false := by
+  decide
+
+theorem nonvacuous_refl : equals exDoc exDoc = true := by decide
+
 end Ytk.C05
